@@ -9,7 +9,7 @@ static ENV: OnceLock<props::Env> = OnceLock::new();
 fuzz_target!(|data: &[u8]| {
     let env = ENV.get_or_init(props::fuzz_env);
     let case = props::c09::gen_case(&mut Src::new(data));
-    if let Err(f) = run_guarded(&case, &|c| props::c09::check_case(c, env)) {
+    if let Err(f) = run_guarded(&case, &|c| props::c09::check_all_cuts(c, env)) {
         // the panic hook is silent: print the verdict on stdout, then abort the way libFuzzer expects
         println!("FUZZ-VIOLATION target=fz_eos signature={} {}", f.sig, f.msg);
         std::process::abort();
